@@ -298,8 +298,12 @@ def execute(sc):
     counters['clock_mode'] = {clock.mode: 1}
 
     def fail_allowed(o):
-        # in the fault configuration a route may fail with OSError (also a short-write hit is survivable);
-        return fault_cfg and o.err is not None and o.err.startswith('OSError')
+        # C12 speaks about documents that were produced. In the fault configuration a route during which an injected
+        # fault fired may fail in whatever way the code chooses (exception, CLI message + status != 0); a non-seekable
+        # sink may make any route fail (write_pdf needs tell()). Nothing else excuses a failed route.
+        if not fault_cfg or o.err is None:
+            return False
+        return bool(o.faulted) or o.route == 'nonseekable'
 
     # ---------------- single symbol
     if not sc['seq']:
@@ -316,9 +320,6 @@ def execute(sc):
         for o in docroutes:
             if o.err is not None:
                 if fail_allowed(o):
-                    counters['routes_failed_under_fault'] = counters.get('routes_failed_under_fault', 0) + 1
-                    continue
-                if o.route in ('cli', 'cli_svgz') and o.proc and o.proc.get('traceback') and fault_cfg and (o.proc['exc'] or '').split(':')[0] in _OSERRORS:
                     counters['routes_failed_under_fault'] = counters.get('routes_failed_under_fault', 0) + 1
                     continue
                 viols.append(_viol('c12.identical', 'route %s failed (%s) although other routes produce the document' % (o.route, o.err),
